@@ -22,6 +22,8 @@ def scenario(rec, idx, seed=0):
     sc = _scenario(rec["t"], idx, seed, rec.get("asserts"))
     sc["stmt"] = rec["t"]
     t = rec["t"]
+    if t.get("meta"):
+        sc["shape"]["meta"] = [(i * 37) % 250 + 1 for i in range(t["meta"])]   # non-zero bytes
     if t.get("auxd"):
         sc["shape"].update(aux_degs=t["auxd"], aux_rands=t["auxr"], lagrange=bool(t["lag"]), aux_asserts=rec.get("auxasserts", []))
     elif t.get("lag"):
